@@ -190,7 +190,39 @@ def _pipe(job):
     return st
 
 
+def _bigcard(_):
+    """a 34 000-category column (more categories than a 16-bit code can hold) scored through the pipeline under two namings of its categories"""
+    import pandas as pd
+    from outrank import core_ranking as cr
+    st = Stats()
+    n = 34000
+    ids = [(i * 7919) % 1000003 for i in range(n)]
+    lab = [str((i // 3) % 2) for i in range(n)]
+    out = []
+    for naming in (lambda v: f'a{v:07d}', lambda v: f'z{1000003 - v:07d}'):
+        harness.reset_state()
+        df = pd.DataFrame({'ident': [naming(v) for v in ids], 'pair': [naming(v // 2) for v in ids], 'label': lab})
+        args = harness.make_args(heuristic='MI-numba-3mr', target_ranking_only='True')
+        ok, res = safe(cr.mixed_rank_graph, df, args, harness.InlinePool(), harness.NullBar())
+        st.count('evaluations')
+        st.count('bigcard_runs')
+        st.count('nontrivial')
+        if not ok:
+            st.violation({'bigcard': True}, f'mixed_rank_graph raised {res}', {'kind': 'pipeline_exception'})
+            return st
+        out.append({(a, b): float(s) for a, b, s in res.triplet_scores})
+    bad = [k for k in out[0] if not est.near(out[0][k], out[1].get(k, 9e9), 2e-5, 2e-5)]
+    if bad:
+        st.violation({'bigcard': True}, f'renaming the categories of a 34 000-category column changed scores: {[(k, out[0][k], out[1].get(k)) for k in bad[:3]]}', {'kind': 'pipeline_renaming', 'bigcard': True})
+    # and against the value implied by the structure: 'pair' has two rows per category within one label block pattern -> plug-in MI computed directly
+    exp = refs.plugin_mi([v // 2 for v in ids], [int(x) for x in lab])
+    if not est.near(out[0].get(('pair', 'label'), 9e9), exp, 1e-4, 1e-4):
+        st.violation({'bigcard': True}, f'(pair,label) scored {out[0].get(("pair", "label"))!r}, plug-in MI {exp!r}', {'kind': 'pipeline_value', 'bigcard': True})
+    return st
+
+
 def run(ctx):
+    ctx.stats.merge(_bigcard(None))
     nmax = 7 if ctx.thorough else 6
     jobs = []
     for n in range(1, nmax + 1):
@@ -213,6 +245,8 @@ def run(ctx):
 
 
 def eval_case(case):
+    if case.get('bigcard'):
+        return [v['what'] for v in _bigcard(None).violations]
     if 'frame' in case:
         c1, c2, c3 = [tuple(c) for c in case['frame']]
         base = frame_scores((c1, c2, c3), NAMESETS[0][1], 'MI-numba-randomized', True)
